@@ -3,10 +3,12 @@ package service
 import (
 	"cmp"
 	"context"
+	"fmt"
 	"log/slog"
 	"os"
 	"time"
 
+	"github.com/AdguardTeam/golibs/errors"
 	"github.com/AdguardTeam/golibs/logutil/slogutil"
 	"github.com/AdguardTeam/golibs/osutil"
 )
@@ -115,7 +117,7 @@ func (h *SignalHandler) shutdown(ctx context.Context) (status osutil.ExitCode) {
 	status = osutil.ExitCodeSuccess
 	for i := len(h.services) - 1; i >= 0; i-- {
 		s := h.services[i]
-		err := s.Shutdown(ctx)
+		err := shutdownService(ctx, s)
 		if err == nil {
 			continue
 		}
@@ -128,4 +130,17 @@ func (h *SignalHandler) shutdown(ctx context.Context) (status osutil.ExitCode) {
 	h.logger.InfoContext(ctx, "shut down", "status", status)
 
 	return status
+}
+
+// shutdownService shuts down a single service.  A panic in the service is
+// recovered and returned as an error, so that it is reported as a failure and
+// does not prevent the remaining services from being shut down.
+func shutdownService(ctx context.Context, s Interface) (err error) {
+	defer func() {
+		if recErr := errors.FromRecovered(recover()); recErr != nil {
+			err = fmt.Errorf("panic: %w", recErr)
+		}
+	}()
+
+	return s.Shutdown(ctx)
 }
